@@ -24,6 +24,10 @@ def check_case(run, ao, c):
         exp = _np_mask(c["mask"])
         if got.shape != exp.shape or not np.array_equal(got, exp):
             bad.append(("circle:indicator", dict(got=np.asarray(got).tolist())))
+        if float(c["rq"] / 4.0).is_integer() and c["cxq"] % 4 == 0 and c["cyq"] % 4 == 0:
+            gi = pupil.circle(int(c["rq"] // 4), c["n"], (int(c["cxq"] // 4), int(c["cyq"] // 4)), c["origin"])       # all-integer arguments
+            if not np.array_equal(gi, exp):
+                bad.append(("circle:indicator:integer-arguments", dict(got=np.asarray(gi).tolist())))
         if ao.circle is not pupil.circle:
             got2 = ao.circle(c["rq"] / 4.0, c["n"], (c["cxq"] / 4.0, c["cyq"] / 4.0), c["origin"])
             if not np.array_equal(got2, exp):
@@ -53,6 +57,14 @@ def check_case(run, ao, c):
                 ff = np.asarray(wfslib.computeFillFactor(mask.copy(), got2, M // S))
                 if ff.shape != fills.shape or not np.array_equal(ff, exp_fills):
                     bad.append(("subaps:fillfactor-agree", dict(got=ff.tolist(), expected=exp_fills.tolist())))
+            if not bad:
+                # masks are often boolean or integer arrays: same cells, same fills
+                for dt in (bool, np.int64):
+                    gi, fi = wfslib.findActiveSubaps(S, mask.astype(dt), th, returnFill=True)
+                    if np.asarray(gi).shape != exp_coords.shape or not np.array_equal(np.asarray(gi), exp_coords) \
+                            or not np.array_equal(np.asarray(fi), exp_fills):
+                        bad.append(("subaps:active-set:mask-dtype-%s" % np.dtype(dt).name, dict(got=np.asarray(gi).tolist())))
+                        break
     elif k == "scatter":
         from aotools.wfs import wfslib
         mask = _np_mask(c["mask"])
